@@ -271,6 +271,24 @@ def elem_of(t):
     # default-or wrappers
     if is_call(t, ('unwrap_or_default', 'unwrap', 'expect', 'unwrap_or')) and t[2]:
         return elem_of(t[2][0])
+    if t[0] == 'phi':
+        # `match c.get(k) { Some(e) => e, None => default }` / `match c.entry(k) { Occupied(s) => s.into_mut(), Vacant(s) => s.insert(d) }`:
+        # every alternative is the same element, or a fresh default value standing in for an absent one
+        es = []
+        for alt in t[1]:
+            e = elem_of(alt)
+            if e is not None:
+                es.append(e)
+            elif not (alt[0] == 'call' and call_name(alt) in ('default', 'new') and not alt[2]):
+                return None
+        if es and all((e[0], versionless(e[1]) if e[1] != '*' else '*', e[2]) == (es[0][0], versionless(es[0][1]) if es[0][1] != '*' else '*', es[0][2]) for e in es):
+            return es[0]
+        return None
+    if t[0] == 'call' and call_name(t) in ('into_mut', 'get', 'get_mut', 'insert', 'insert_entry') and t[2] \
+            and t[2][0][0] == 'field' and t[2][0][2] in ('Occupied.0', 'Vacant.0') and is_call(t[2][0][1], 'entry') and len(t[2][0][1][2]) == 2:
+        # Entry API spelled out: OccupiedEntry::into_mut / get_mut / get, VacantEntry::insert(default) -> the element
+        e = t[2][0][1]
+        return (versionless(e[2][0]), e[2][1], 'value')
     if t[0] == 'field' and t[2] == 'Some.0' and t[1][0] == 'call':
         c = t[1]
         n = call_name(c)
@@ -303,6 +321,22 @@ def elem_value_of(t):
     """Like elem_of but also follows struct fields below the element value:
     returns (container, key, part, subpath)."""
     t = versionless(t)
+    if t[0] == 'phi':
+        # a projection taken in both arms of `match c.get(k) { Some(e) => e.f, None => Default::default().f }`
+        es = []
+        for alt in t[1]:
+            e = elem_value_of(alt)
+            if e is not None:
+                es.append((e[0], versionless(e[1]) if e[1] != '*' else '*', e[2], tuple(e[3])))
+                continue
+            x = alt
+            while x[0] == 'field':
+                x = x[1]
+            if not (x[0] == 'call' and call_name(x) in ('default', 'new') and not x[2]):
+                return None
+        if es and all(e == es[0] for e in es):
+            return es[0]
+        return None
     path = []
     cur = t
     for _ in range(4):
